@@ -1014,9 +1014,19 @@ ADDENDA = {
            "deliver or re-raise: it catches that class of exception when the user's function raises it (found case(): fixed db6b252).",
     "C14": " The operators' state is proved to be allocated per subscription (frame condition, frame.run_local): repeat / retry / a second "
            "subscriber re-subscribe the same early-terminating observable.",
-    "C28": _SCHED_CALLEES + ".", "C29": _SCHED_CALLEES + ".", "C33": _SCHED_CALLEES + ".", "C42": _SCHED_CALLEES + ".",
-    "C30": _SCHED_CALLEES + _QUEUE, "C31": _SCHED_CALLEES + _QUEUE, "C34": _SCHED_CALLEES + _QUEUE, "C35": _SCHED_CALLEES + _QUEUE,
+    "C36": " The process's local time zone is an input: the datetime contract has its utc offset as a free integer (naive constructor, astimezone / "
+           "timestamp of a naive value, fromtimestamp without tz); the constants UTC_ZERO and DELTA_ZERO of reactivex/internal/constants.py are "
+           "evaluated from their real defining expressions under it (UTC_ZERO is the epoch whatever that offset); the native table runs in four "
+           "process zones.",
 }
+for _p in ("C28", "C29", "C33", "C42"):
+    ADDENDA[_p] = ADDENDA.get(_p, "") + _SCHED_CALLEES + "."
+for _p in ("C30", "C31", "C34", "C35"):
+    ADDENDA[_p] = ADDENDA.get(_p, "") + _SCHED_CALLEES + _QUEUE
+_NOTIF = (" The Notification classes (reactivex/notification.py) are under function contracts of their own (notif.py): kind / payload fields, accept replays "
+          "exactly the one notification, to_observable schedules one action that replays it, from_notifier.")
+for _p in ("C05", "C08", "C15", "C38"):
+    ADDENDA[_p] = ADDENDA.get(_p, "") + _NOTIF
 _PUB = (" The public entry points of these operators (reactivex/operators/__init__.py, reactivex/__init__.py) are proved to reach the implementation "
         "functions under contract with the very arguments (pubapi.py: same-named parameter unchanged, plus the documented exceptions such as "
         "find_index = find_value_(predicate, yield_index=True)).")
